@@ -2,11 +2,13 @@ SPEC = {
     "id": "C26",
     "props_module": "NDB.Props.C26",
     "corr_modules": ["NDB.Corr.C26", "NDB.Corr.C26bs"],
-    "theorems": ["C26_refuted_delete", "C26_refuted_lookup", "C26_refuted_scan", "C26_refuted_insert"],
+    "theorems": ["C26_refuted_delete", "C26_refuted_lookup", "C26_refuted_insert",
+                 "C26_single_leaf_partial", "C26_leaf_insert_partial", "C26_leaf_delete_partial", "C26_leaf_split_partial",
+                 "C26_descent_partial", "C26_binary_search_partial"],
     "allowed_axioms": [],
     "harness_pkg": "hx_btree",
     "harness_bin": "c26",
-    "n": {"quick": 96, "thorough": 1500},
+    "n": {"quick": 200, "thorough": 1500},
     "harness_timeout": {"quick": 600, "thorough": 3000},
     "trusted_base": [
         "Coq 8.16.1 kernel + vm_compute (no native_compute); coqchk re-check in the thorough tier",
